@@ -41,9 +41,15 @@ Part 1 (engine E1, mc.histories) - product breadth-first search over the real ob
   str.splitlines() and the codecs readers break a line but a file does not (\\v \\f FS GS RS NEL LS PS; bytes: also a
   lone \\r): to io.StringIO / io.BytesIO they are ordinary content.  For SpooledStringIO the line-by-line reads are left
   out of that search (see TEXT_LINE_OPS_ON_BREAK_WORDS: a defect of the unchanged tree, reported with fix C18-4).
+  A third small search (SpooledStringIO, READ_CHUNK_SIZE 2) runs over the first and last code point of every UTF-8
+  width (U+007F/U+0080, U+07FF/U+0800, U+FFFF/U+10000, U+10FFFF) and U+00BF.
   Directed full-scale scenarios (NOT exhaustive): contents of n items for n around the module's integer constants
   (found by introspection), the io buffer size, 72 and 64 KiB, written in three pieces with max_size in {1, n//3+2, n,
-  n+1}, seek(p) and five short read programs, every prefix judged like a search transition.
+  n+1}, seek(p) and five short read programs, every prefix judged like a search transition.  Every character there is:
+  contents of 8192 consecutive code points that together cover U+0000-U+10FFFF once (every UTF-8 lead and continuation
+  byte, the first and last code point of every width; SpooledBytesIO: every byte value), and contents that arrive one
+  item at a time (more writes than the interpreter's recursion limit) through write() and writelines(), each followed
+  by four short programs over len, tell, seek, read(n), readline, readlines, iteration, rollover and getvalue.
 
 Part 2 (engine E2, mc.inputs) - MultiFileReader: every content of length <= N over {a, b, \\n} (text and bytes) x every
   partition into 1-3 member files (empty members included) x every read program of <= 4 steps over
@@ -59,7 +65,8 @@ Part 2 (engine E2, mc.inputs) - MultiFileReader: every content of length <= N ov
   `ioutils.READ_CHUNK_SIZE` is configuration here too: a smaller space is run with it scaled to 2.  Directed full-scale
   scenarios (NOT exhaustive): member lengths x read amounts around the module constants and powers of two (4-128 KiB),
   position-numbered contents, programs (amt, amt, read), (amt, seek0, amt, amt, read), (1, amt, read, seek0, amt) and
-  read(amt) until the data ends.
+  read(amt) until the data ends; partitions into many member files (64 to beyond three times the interpreter's
+  recursion limit; one item per member, runs of empty members, a mix) read with amounts that cross most of them.
 
 TMPDIR / tempfile.tempdir point to a scratch directory under /dev/shm for the duration of the run; every object is
 closed at the end of its transition; the directory is removed afterwards.
@@ -94,6 +101,9 @@ BREAK_WORDS = ('p\x0bq\x0c\n', '\x1c\x1d\x1er', '\x85', '\u2028s\u2029')
 # full one and the lone \r joins the alphabet.
 TEXT_LINE_OPS_ON_BREAK_WORDS = True
 LONE_CR_WORD = 'd\re'
+# the first and last code point of every UTF-8 width (1-4 bytes) and a continuation byte 0xBF: whatever looks at the
+# encoded form sees every kind of lead byte and both ends of the continuation range
+UTF8_EDGE_WORDS = ('\x7f\u0080', '\u07ff\n\u0800', '\uffff\U00010000', '\U0010ffff\xbf')
 ITER_LIMIT = 64             # no explored content has more than ~10 lines
 
 OP_CPU_S = 3.0              # CPU seconds per operation on the five objects (normally < 1 ms)
@@ -163,6 +173,7 @@ def scratch_tmpdir():
 # bulk contents and sizes (directed scenarios at full scale; not exhaustive)
 
 _BULK = {}
+_CP = {}
 
 
 def bulk_content(n, variant, multibyte):
@@ -183,6 +194,37 @@ def bulk_content(n, variant, multibyte):
             i += 1
         have = _BULK[key] = ''.join(parts)
     return have[:n]
+
+
+SURROGATES = (0xD800, 0xE000)        # not code points a str written to a UTF-8 file can hold
+N_CODEPOINTS = 0x110000 - (SURROGATES[1] - SURROGATES[0])
+
+
+def codepoint_block(start, n):
+    """n consecutive code points from the start-th one on (surrogates skipped, wrapping after U+10FFFF): walking
+    start over 0, n, 2n, ... writes every character there is exactly once - every lead byte and every continuation
+    byte 0x80-0xBF of UTF-8 in every place, the first and last code point of every encoded width."""
+    out = []
+    for i in range(start, start + n):
+        c = i % N_CODEPOINTS
+        out.append(chr(c if c < SURROGATES[0] else c + SURROGATES[1] - SURROGATES[0]))
+    return ''.join(out)
+
+
+def bulk_data(kind, n, variant):
+    """What write(bulk) writes.  variant 'lines' / 'oneline': numbered text (bulk_content); 'cp:<start>': a block of
+    consecutive code points (text) resp. every byte value 0-255 in turn, starting at <start> (bytes)."""
+    if variant.startswith('cp:'):
+        key = (kind, n, variant)
+        if key not in _CP:
+            if len(_CP) > 8:
+                _CP.clear()
+            start = int(variant[3:])
+            _CP[key] = (bytes((start + i) % 256 for i in range(n)) if kind == 'bytes'
+                          else codepoint_block(start, n))
+        return _CP[key]
+    data = bulk_content(n, variant, kind == 'text')
+    return data.encode('ascii') if kind == 'bytes' else data
 
 
 def bulk_thresholds(ioutils, extra=()):
@@ -228,7 +270,7 @@ def opname(op):
     if op[0] in ('readline', 'readlines') and len(op) > 1:
         return '%s(%r)' % (op[0], op[1])             # one of the NOLIMIT_OPS spellings: -1 or None, a shape
     if op[0] == 'write_bulk':
-        return 'write(bulk)'
+        return 'write(bulk)' if len(op) < 5 or op[4] == 'write' else 'writelines(bulk)'
     if op[0] == 'seek':
         return 'seek(p)'
     if op[0] == 'seek_end':
@@ -293,11 +335,14 @@ def apply(f, op, kind, ref=False):
         if name == 'read':
             return ('ok', f.read() if len(op) == 1 else f.read(op[1]))
         if name == 'write_bulk':
-            data = bulk_content(op[1], op[2], kind == 'text')
-            if kind == 'bytes':
-                data = data.encode('ascii')
-            for piece in range(0, len(data), op[3]):  # op[3] = length of the pieces it is written in
-                f.write(data[piece:piece + op[3]])
+            data = bulk_data(kind, op[1], op[2])
+            pieces = [data[at:at + op[3]] for at in range(0, len(data), op[3])]   # op[3] = length of the pieces
+            how = op[4] if len(op) > 4 else 'write'   # the pieces go through write() one by one or through writelines()
+            if how == 'write':
+                for piece in pieces:
+                    f.write(piece)
+            else:
+                f.writelines(lines_arg(how, pieces))
             return ('ok', None)
         if name == 'readline':
             return ('ok', f.readline() if len(op) == 1 else f.readline(op[1]))
@@ -540,7 +585,8 @@ def spooled_searches(tier):
     one = ('list',)
     out += [Spec('bytes', None, 2, words=(BREAK_WORDS[0][2:], BREAK_WORDS[3][:1], LONE_CR_WORD), wl_shapes=one),
             Spec('text', None, 2, words=bw, wl_shapes=one, line_ops=TEXT_LINE_OPS_ON_BREAK_WORDS),
-            Spec('text', 2, 2, words=bw, wl_shapes=one, line_ops=TEXT_LINE_OPS_ON_BREAK_WORDS)]
+            Spec('text', 2, 2, words=bw, wl_shapes=one, line_ops=TEXT_LINE_OPS_ON_BREAK_WORDS),
+            Spec('text', 2, 2, words=UTF8_EDGE_WORDS, wl_shapes=one)]
     if tier != 'quick':
         out += [Spec('text', 3, mw),
                 Spec('bytes', None, 4, words=('a', '\n', 'b\r\nc')),
@@ -586,6 +632,61 @@ def spooled_bulk_shard(arg):
                             break
                         hist += (op,)
     return t
+
+
+SWEEP_BLOCK = 8192          # code points per content of the every-character sweep
+
+
+def sweep_programs(n):
+    """Programs run after write(bulk content) by the every-character sweep and the many-pieces scenarios."""
+    return [
+        [('len',), ('tell',), ('seek', n // 2), ('len',), ('read', 5), ('tell',), ('readline',), ('seek_end',),
+         ('tell',)],
+        [('seek', 1), ('rollover',), ('len',), ('read', n // 2), ('tell',), ('getvalue',), ('seek', n - 1), ('read', 2)],
+        [('seek', 0), ('readlines',)],
+        [('seek', n // 3), ('iterate',), ('len',)],
+    ]
+
+
+def spooled_directed_shard(arg):
+    """One bulk write (its content, the pieces it comes in and the entry point they go through are the argument), then
+    every prefix of the sweep programs, judged like a search transition."""
+    kind, w, sizes = arg
+    from boltons import ioutils
+    t = inputs.Tally()
+    spec = Spec(kind, None, 2, max_sizes=sizes)
+    spec.bulk = True
+    with spec.seam():
+        for prog in sweep_programs(w[1]):
+            hist = (w,)
+            for op in prog:
+                viols, key, label = spec.step(ioutils, hist, op)
+                t.count(nontrivial=True, sample=spec.case(hist, op) if op[0] == 'len' else None)
+                for v in viols:
+                    t.bad(v[0], v[1], v[2], v[3], v[4], v[5])
+                if key is None:
+                    break
+                hist += (op,)
+    return t
+
+
+def spooled_directed_args(quick):
+    import sys
+    n = SWEEP_BLOCK
+    args = []
+    # every character there is, once: contents of SWEEP_BLOCK consecutive code points, written in three pieces
+    for start in range(0, N_CODEPOINTS, n):
+        args.append(('text', ('write_bulk', n, 'cp:%d' % start, n // 3 + 1), (1, n, 3 * n, 10 ** 6)))
+    # every byte value (the words of the searches are UTF-8: bytes 0xC0, 0xC1, 0xF5-0xFF and NUL never occur there)
+    for start in (0, 128):
+        args.append(('bytes', ('write_bulk', 1024, 'cp:%d' % start, 342), (1, 500, 1024, 10 ** 6)))
+    # many appending writes: a content that arrives item by item, through write() and through writelines()
+    counts = sorted({sys.getrecursionlimit() + 1, 1025} | (set() if quick else {257, 3 * sys.getrecursionlimit() + 1}))
+    for kind in ('text', 'bytes'):
+        for c in counts:
+            for how in ('write', 'list', 'generator'):
+                args.append((kind, ('write_bulk', c, 'lines', 1, how), (1, c // 2, c, c + 1)))
+    return args, counts
 
 
 # ======================================================================================================
@@ -798,8 +899,11 @@ def mfr_bulk_members(kind, lens, variant):
 
 
 def mfr_bulk_run(ioutils, kind, lens, variant, prog):
+    if len(lens) == 2 and isinstance(lens[1], str):
+        lens = mfr_many_lens(int(lens[0]), lens[1])
     v = mfr_run(ioutils, kind, mfr_bulk_members(kind, lens, variant), prog)
-    if v is not None and isinstance(v[1], (str, bytes)) and isinstance(v[2], (str, bytes)):
+    if (v is not None and isinstance(v[1], (str, bytes)) and isinstance(v[2], (str, bytes))
+            and not v[0].split('|members=')[0].endswith(('raises', 'type', 'cannot-be-prepared'))):
         at = first_difference(v[1], v[2])
         v = (v[0], {'concatenation': brief(v[1]), 'from the first difference': repr(v[1][at:at + 40])},
              {'read so far': brief(v[2]), 'first difference at': at, 'from there': repr(v[2][at:at + 40])})
@@ -828,7 +932,7 @@ def mfr_bulk_shard(cases):
     hung = False
     for kind, lens, variant, prog in cases:
         case = {'part': 'mfr-bulk', 'kind': kind, 'member_lengths': list(lens), 'content': variant,
-                'program': list(prog)}
+                'program': list(prog)}           # member_lengths [count, pattern name]: see mfr_many_lens
         t.count(nontrivial=True, sample=case)
         try:
             with cpu_budget(2.0 if hung else 30.0):
@@ -837,8 +941,42 @@ def mfr_bulk_shard(cases):
             hung = True
             v = ('read|terminates', 'returns', 'no return within the CPU budget')
         if v is not None:
-            t.bad('C18|mfr:' + v[0], case, v[1], v[2], tags=('bulk',))
+            many = len(lens) == 2 and isinstance(lens[1], str)
+            t.bad('C18|mfr:' + v[0], case, v[1], v[2], tags=('many-members',) if many else ('bulk',))
     return t
+
+
+MANY_PATTERNS = {'ones': (1,), 'mostly-empty': (0, 0, 0, 0, 0, 0, 0, 5), 'mixed': (0, 1, 2, 0, 3)}
+
+
+def mfr_many_lens(count, pattern):
+    """Lengths of `count` member files: the pattern repeated (fine-grained partitions: one item per member, runs of
+    empty members, a mix)."""
+    pat = MANY_PATTERNS[pattern]
+    return tuple(pat[i % len(pat)] for i in range(count))
+
+
+def mfr_many_programs(total):
+    return [(total + 5,), (10, total * 5 // 6, 'read'), ('read', 'seek0', total), (total // 2 + 1,) * 3,
+            (3, 'seek0', total + 1, 'seek0', 'read'), (7,) * 12 + ('read',)]
+
+
+def mfr_many_cases(quick):
+    """(kind, member lengths as (count, pattern), 'lines', program): partitions into many member files - counts around
+    powers of two and around the interpreter's recursion limit (whatever it is in this process), beyond it too."""
+    import sys
+    rl = sys.getrecursionlimit()
+    counts = sorted({64, 255, 257, rl - 1, rl + 1, 1025, 3 * rl + 1} | (set() if quick else {rl, 4097, 10 * rl + 1}))
+    out = []
+    for kind in ('text', 'bytes') + MFR_KINDS_X_MIXED:
+        for count in counts:
+            if kind in MFR_KINDS_X_MIXED and count > (1025 if quick else 4097):
+                continue
+            for pattern in sorted(MANY_PATTERNS):
+                total = sum(mfr_many_lens(count, pattern))
+                for prog in mfr_many_programs(total):
+                    out.append((kind, (count, pattern), 'lines', prog))
+    return out, counts
 
 
 def mfr_items(maxlen, alphabet=MFR_ALPHABET, kinds=('text', 'bytes')):
@@ -881,6 +1019,12 @@ def run(ctx):
             'every prefix of five short read programs after write(content of n items in three pieces); seek(p), judged '
             'like a search transition; non-trivial = all (n >= 71)'))
 
+        sd_args, sd_counts = spooled_directed_args(quick)
+        inputs.run_shards(ctx, spooled_directed_shard, sd_args,
+                          part='spooled files, every character / byte value and many-piece writes (directed)', rule=(
+                              'every prefix of four short programs (len, tell, seek, read(n), readline, readlines, '
+                              'iteration, rollover, getvalue) after one bulk write; non-trivial = all (>= 1024 items)'))
+
         maxlen, proglen = (4, 4) if quick else (5, 4)
         items = mfr_items(maxlen)
         small = [it for it in items if len(it[1]) <= 2]          # first shard: the simplest contents, in order, so
@@ -914,6 +1058,11 @@ def run(ctx):
         inputs.run_shards(ctx, mfr_bulk_shard, [mb_cases[:8]] + core.shards(mb_cases[8:], 47),
                           part='MultiFileReader, bulk members and amounts (directed)',
                           rule='non-trivial = all (three non-empty members, sized reads of bulk amounts)')
+        # directed: partitions into many member files
+        mm_cases, mm_counts = mfr_many_cases(quick)
+        inputs.run_shards(ctx, mfr_bulk_shard, [mm_cases[:6]] + core.shards(mm_cases[6:], 31),
+                          part='MultiFileReader, partitions into many member files (directed)',
+                          rule='non-trivial = all (64 or more member files, reads that cross many of them)')
         # the other member kinds, on a smaller space (their reads cost 10-50x an io.StringIO's)
         if quick:
             spaces = [(MFR_KINDS_X_MEMORY, 3, 3), (MFR_KINDS_X_MIXED + MFR_KINDS_X_ROLLED, 2, 3),
@@ -965,11 +1114,29 @@ def run(ctx):
                 'MultiFileReader (mixed member kinds) lengths and amounts': mb_few,
                 'MultiFileReader members': '(first, 5, another bulk size); programs: (amt, amt, read), (amt, seek0, '
                                            'amt, amt, read), (1, amt, read, seek0, amt), amt until the data ends',
-                'cases': len(mb_cases)},
+                'cases': len(mb_cases),
+                'spooled, every character': 'contents of %d consecutive code points (surrogates skipped) covering '
+                                            'U+0000-U+10FFFF once, written in three pieces, max_size 1, n, 3n, 10**6; '
+                                            'SpooledBytesIO: every byte value 0-255 (1024 bytes, from 0 and from 128)'
+                                            % SWEEP_BLOCK,
+                'spooled, many-piece writes': 'numbered content of n items written one item at a time through write(), '
+                                              'writelines(list) and writelines(generator), n in %r (recursion limit + '
+                                              '1, a power of two + 1), max_size 1, n//2, n, n+1' % (sd_counts,),
+                'spooled sweep programs': [[list(o) for o in pr] for pr in sweep_programs(100)],
+                'MultiFileReader, many member files': {
+                    'member counts': mm_counts, 'member length patterns (repeated)': {k: list(v) for k, v in
+                                                                                     MANY_PATTERNS.items()},
+                    'kinds': ['text', 'bytes'] + list(MFR_KINDS_X_MIXED),
+                    'programs (T = total length)': '(T+5), (10, 5T/6, read), (read, seek0, T), 3 x (T/2+1), (3, seek0, '
+                                                   'T+1, seek0, read), 12 x 7 then read',
+                    'cases': len(mm_cases)}},
             'mixed member kinds (member i is of kind [i % 3])': {k: list(v) for k, v in MIXED.items()}}
         cov['exhaustive'] = bool(spooled_exhaustive)
-        cov['directed_parts_not_exhaustive'] = ['spooled files, bulk contents (directed)',
-                                                'MultiFileReader, bulk members and amounts (directed)']
+        cov['directed_parts_not_exhaustive'] = [
+            'spooled files, bulk contents (directed)',
+            'spooled files, every character / byte value and many-piece writes (directed)',
+            'MultiFileReader, bulk members and amounts (directed)',
+            'MultiFileReader, partitions into many member files (directed)']
     ctx.assumptions += [
         "write()'s return value is not compared; writes happen only with the position at the end of the data; seeks "
         "only to positions 0..len (DESIGN 5.1)",
